@@ -24,7 +24,7 @@ from vlib import discharge, families, harness, netcheck, numrun, ref_metanet, ru
 from vlib.symx import S, SymArray
 
 PID = "C12"
-ALPHA = ["N(X,0)", "N(Y,63)", "N(Y,9)", "SX", "MX", "SX+F0", "MX+F2", "SX+F1", "N(X:=Y)", "N(Xpart)", "N(Ybad)"]
+ALPHA = ["N(X,0)", "N(Y,63)", "N(Y,9)", "SX", "MX", "SX+F0", "MX+F2", "SX+F1", "N(X:=Y)", "N(Xpart)", "N(Ybad)", "N(roll)"]
 
 
 def snapshot(X):
@@ -67,6 +67,7 @@ def params_snapshot(built):
 class Session:
     def __init__(self, topo, seed, sym=True):
         self.topo = topo
+        self.seed = seed
         self.P = numrun.exact_params(topo, seed)
         self.built = T_.build(topo, self.P)
         self.sym = sym
@@ -127,6 +128,31 @@ class Session:
             if hasattr(self, "X0"):
                 self.overwrite_in_place(self.X, self.X0)
             return None, []
+        if op == "N(roll)":
+            # the roll-out idiom: the next step starts from the network's own next states (the elements' dictionaries
+            # themselves are handed back for the links); expected: a step of a fresh network from those same values
+            self.numpy_step(self.Y, 0)
+            vals = {}
+            ic = {}
+            for key, v in self.Y.items():
+                el = self.built.element(key[0])
+                ns = el.next_states
+                if ns and key[1] in ns:
+                    vals[key] = ns[key[1]]
+                else:
+                    vals[key] = v
+            for el_name in {k[0] for k in vals}:
+                el = self.built.element(el_name)
+                if el_name in self.built.links and not hasattr(el, "vsl"):
+                    ic[el] = el.next_states  # exactly {"rho", "v"}: the element's own dictionary
+                else:
+                    ic[el] = {k[1]: v for k, v in vals.items() if k[0] == el_name}
+            copies = {k: (v.copy() if isinstance(v, np.ndarray) else v) for k, v in vals.items()}
+            self.built.net.step(init_conditions=ic, engine=runs.numpy_engine(), **runs.NOFLAGS, **T_.model_kwargs(self.topo, self.P))
+            got = runs.collect_next(self.topo, self.built)
+            s2 = Session(self.topo, self.seed, self.sym)
+            ref, _ = s2.numpy_step(copies, 0)
+            return ("roll", got, ref), []
         if op == "N(Ybad)":
             # a step that fails half-way: the LAST link gets a density vector of the wrong length
             last = self.topo.links[-1]
@@ -167,11 +193,14 @@ def work(item):
         first, problems = s.do("N(X,0)")
         probs += problems
         asY = []
+        rolls = []
         for op in hist:
             r, problems = s.do(op)
             probs += [f"after {op}: {p}" for p in problems]
             if isinstance(r, tuple) and r[0] == "asY":
                 asY.append(r[1])
+            if isinstance(r, tuple) and r[0] == "roll":
+                rolls.append((r[1], r[2]))
         s.do("restore")
         again, problems = s.do("N(X,0)")
         probs += problems
@@ -179,7 +208,7 @@ def work(item):
         if asY:
             s2 = Session(topo, seed, sym)  # fresh network objects: reference step from Y
             refY, _ = s2.numpy_step(s2.Y, 0)
-        return first, again, probs, asY, refY
+        return first, again, probs, asY, refY, rolls
 
     for sym in (True, False):
         try:
@@ -199,7 +228,17 @@ def work(item):
             if pr.exc is not None:
                 bad(f"raised {type(pr.exc).__name__}: {str(pr.exc)[:200]}")
                 continue
-            first, again, problems, asY, refY = pr.value
+            first, again, problems, asY, refY, rolls = pr.value
+            for got, ref_ in rolls:
+                for key in ref_:
+                    a, b = symx.leaves(got[key]), symx.leaves(ref_[key])
+                    for i, (x, y) in enumerate(zip(a, b)):
+                        if sym:
+                            acc.query(prover, topo, "numpy-symbolic", f"roll-out step from the network's own next states: {key[1]}_{key[0]}[{i}] == step of a fresh network from those values", x.t == y.t, (), pr.pc,
+                                      lambda m, key=key, i=i: {"key": f"c12:{topo.name}:{hist}:roll", "group": "roll-out differs",
+                                                               "what": f"{topo.describe()} | history {list(hist)}: a step started from the network's own next states differs from the step of a fresh network from the same values ({key[1]}_{key[0]}[{i}])", "replay": rec})
+                        elif not numrun.close(float(x.c if hasattr(x, "c") else x), float(y.c if hasattr(y, "c") else y), 1e-12, 1e-12):
+                            bad(f"float twin: roll-out step differs from a fresh step from the same values ({key[1]}_{key[0]}[{i}])")
             for p in problems:
                 bad(p)
             for got in asY:
